@@ -39,6 +39,9 @@ type filterCase struct {
 	// PreSelf: the earlier use of the Filter value is a forward self comparison of the target (then
 	// PreSeed/PreLen are not used); whatever that mode sets up must not outlive the call
 	PreSelf bool `json:"pre_self,omitempty"`
+	// PreFail (with PreSeed): the earlier call fails part way - its hit store was made for another element
+	// type, so the first hit it is given is refused and Filter returns that error
+	PreFail bool `json:"pre_fail,omitempty"`
 	// Comp: the complement flag passed to Filter. Only generated for ordinary (non-self) comparison,
 	// where the flag is documented to matter only together with selfAlign and must change nothing
 	// (PALS passes it for the second strand of every query).
@@ -222,7 +225,16 @@ func filterOnce(c filterCase, f *filter.Filter, t []byte, qs *linear.Seq, chunk 
 		for i := 0; c.PreSeed%3 != 0 && i+40 < len(pre) && i+40 < len(t); i += 97 {
 			copy(pre[i:i+40], t[(i*7)%(len(t)-40):])
 		}
-		if err := f.Filter(linear.NewSeq("pre", alphabet.BytesToLetters(pre), alphabet.DNA), false, false, m); err != nil {
+		if c.PreFail {
+			bad, err := morass.New(notAHit(0), "bad", "", 16, false)
+			if err != nil {
+				return nil, 0, err
+			}
+			if f.Filter(linear.NewSeq("pre", alphabet.BytesToLetters(pre), alphabet.DNA), false, false, bad) != nil {
+				vlib.Count("earlier-call-failed", 1)
+			}
+			bad.CleanUp()
+		} else if err := f.Filter(linear.NewSeq("pre", alphabet.BytesToLetters(pre), alphabet.DNA), false, false, m); err != nil {
 			return nil, 0, err
 		}
 		for {
@@ -255,6 +267,11 @@ func filterOnce(c filterCase, f *filter.Filter, t []byte, qs *linear.Seq, chunk 
 	}
 	return hits, most, nil
 }
+
+// notAHit is the element type of a hit store that refuses filter hits.
+type notAHit int
+
+func (a notAHit) Less(b interface{}) bool { return a < b.(notAHit) }
 
 func covered(c filterCase, hits []filter.Hit, t0, q0 int) bool {
 	d := q0 - t0
@@ -468,6 +485,7 @@ func gen(t *rapid.T) filterCase {
 	if !c.Self && rapid.IntRange(0, 2).Draw(t, "reuse-filter") == 0 {
 		c.PreSeed = rapid.Uint64Range(1, 1<<62).Draw(t, "pre-seed")
 		c.PreLen = rapid.IntRange(minLen, max(minLen, maxLen)).Draw(t, "pre-len")
+		c.PreFail = rapid.IntRange(0, 3).Draw(t, "pre-fail") == 0
 	}
 	c.Chunk = rapid.SampledFrom([]int{0, 0, 0, 0, 0, 1, 3, 16, 64}).Draw(t, "hit-store-chunk")
 	if !c.Self && rapid.IntRange(0, 7).Draw(t, "reuse-after-self") == 3 {
@@ -550,6 +568,9 @@ func classes(c filterCase) []string {
 	}
 	if c.PreSelf {
 		l = append(l, "filter-reused-after-a-self-comparison")
+	}
+	if c.PreSeed != 0 && c.PreFail && c.PreSeed%3 != 0 {
+		l = append(l, "filter-reused-after-a-failed-call")
 	}
 	if c.PreSeed != 0 {
 		l = append(l, "filter-reused-after-another-query")
